@@ -2,13 +2,18 @@ package main
 
 import (
 	"bytes"
+	"encoding/binary"
 	"encoding/hex"
 	"encoding/json"
 	"errors"
 	"fmt"
+	"net"
 	"os"
+	"slices"
+	"sort"
 	"strings"
 	"sync"
+	"testing/synctest"
 	"time"
 
 	"github.com/ethereum/go-ethereum/p2p/enode"
@@ -25,7 +30,8 @@ import (
 // exactly the parked ones. One worker process per case (memnet bubbles cannot be left).
 
 // answer menu; entry 0 is "content" for the content lookups and "no-nodes" for Lookup
-var c10ContentMenu = []string{"content", "enrs-other-peers", "enrs-asker+duplicates", "garbage", "empty", "silent"}
+// entry 6: the peer holds the key with a zero-length value and answers CONTENT with zero bytes
+var c10ContentMenu = []string{"content", "enrs-other-peers", "enrs-asker+duplicates", "garbage", "empty", "silent", "content-zero-length"}
 
 type c10ContentCase struct {
 	Part    string `json:"part"`    // "content"
@@ -33,10 +39,17 @@ type c10ContentCase struct {
 	Answers []int  `json:"answers"` // per scripted peer: index into c10ContentMenu
 	Seeds   string `json:"seeds"`   // all: every peer is in the table | first: only peer 0
 	Order   string `json:"order"`   // fifo | lifo: which outstanding request is answered next
+	// Fill is the state of the asker's table when the lookup starts. "": only the seed peers are in
+	// it (every bucket has room). "full": every scripted peer lives in the asker's farthest bucket
+	// and that bucket holds 16 entries - the seed peers plus records of nodes that never answer -
+	// so the table has no room for a node a peer supplies (it goes to the replacement list).
+	Fill string `json:"fill,omitempty"`
+	// Target of Lookup. "": the content id of the key. "last-peer": the id of the last scripted peer.
+	Target string `json:"target,omitempty"`
 }
 
 func (c *c10ContentCase) kind(i int) string {
-	if c.API == "Lookup" && c.Answers[i] == 0 {
+	if c.API == "Lookup" && (c.Answers[i] == 0 || c.Answers[i] == 6) {
 		return "no-nodes"
 	}
 	return c10ContentMenu[c.Answers[i]]
@@ -73,6 +86,55 @@ func c10ContentCases(thorough bool) (cases []c10ContentCase) {
 		add(3, []int{0, 1, 5}, []string{"lifo"}, "ContentLookup", "Lookup")
 		add(4, []int{0, 1, 5}, []string{"fifo"}, "ContentLookup", "Lookup")
 	}
+	// a peer that supplies zero-length content: every assignment of the 7-answer menu in which at
+	// least one peer does (the others are above)
+	withZero := func(n int, sub []int, orders []string, apis ...string) {
+		from := len(cases)
+		add(n, sub, orders, apis...)
+		kept := cases[:from]
+		for _, c := range cases[from:] {
+			for _, a := range c.Answers {
+				if a == 6 {
+					kept = append(kept, c)
+					break
+				}
+			}
+		}
+		cases = kept
+	}
+	menu7 := []int{0, 1, 2, 3, 4, 5, 6}
+	if thorough {
+		withZero(2, menu7, both, "ContentLookup", "TraceContentLookup")
+		withZero(3, menu7, both, "ContentLookup", "TraceContentLookup")
+	} else {
+		withZero(2, menu7, both, "ContentLookup")
+		withZero(2, menu7, []string{"fifo"}, "TraceContentLookup")
+		withZero(3, []int{0, 1, 5, 6}, []string{"fifo"}, "ContentLookup")
+	}
+	// Lookup (the real lookupWorker) while the asker's bucket for the peers is full: only peer 0 is
+	// in the table, the other peers reach the lookup through answers and the table refuses them
+	fullBucket := func(n int, sub []int, orders []string) {
+		from := len(cases)
+		add(n, sub, orders, "Lookup")
+		kept := cases[:from]
+		for _, c := range cases[from:] {
+			if c.Seeds != "first" {
+				continue
+			}
+			for _, tg := range []string{"", "last-peer"} {
+				c.Fill, c.Target = "full", tg
+				kept = append(kept, c)
+			}
+		}
+		cases = kept
+	}
+	if thorough {
+		fullBucket(2, full, both)
+		fullBucket(3, full, both)
+	} else {
+		fullBucket(2, full, []string{"fifo"})
+		fullBucket(3, []int{1, 2, 5}, []string{"lifo"})
+	}
 	return
 }
 
@@ -83,6 +145,14 @@ type c10Parked struct {
 }
 
 func c10PeerContent(i int) []byte { return []byte(fmt.Sprintf("content-supplied-by-peer-%d", i)) }
+
+// content is what peer i supplies when it answers with content.
+func (c *c10ContentCase) content(i int) []byte {
+	if c.kind(i) == "content-zero-length" {
+		return []byte{}
+	}
+	return c10PeerContent(i)
+}
 
 func c10Records(ns []*enode.Node) (recs [][]byte) {
 	for _, n := range ns {
@@ -104,7 +174,14 @@ func c10ContentRun(r *mc.Report, c c10ContentCase, finish func(digest string)) {
 		for i := range as {
 			as[i] = c.kind(i)
 		}
-		return fmt.Sprintf("%s, peers answer [%s], table holds %s, answers released %s", c.API, strings.Join(as, ", "), c.Seeds, c.Order)
+		d := fmt.Sprintf("%s, peers answer [%s], table holds %s, answers released %s", c.API, strings.Join(as, ", "), c.Seeds, c.Order)
+		if c.Fill != "" {
+			d += ", the asker's bucket for the peers is " + c.Fill
+		}
+		if c.Target != "" {
+			d += ", target " + c.Target
+		}
+		return d
 	}
 	viol := func(clause, detail string) { r.Violation(clause, c.API, detail+" | "+desc(), c) }
 	msg := inBubble(func() {
@@ -123,14 +200,19 @@ func c10ContentRun(r *mc.Report, c c10ContentCase, finish func(digest string)) {
 		requests := make([]int, n)
 		var supplied []int               // peers whose content answer went out before the lookup returned
 		offered := map[enode.ID]string{} // records in released answers
+		// Lookup: records in released answers that sit at one of the distances (from the answering
+		// peer) which that very request asked for, the asker's own record excepted: the nodes the
+		// asker accepts from a peer - it has seen them
+		accepted := map[enode.ID]bool{}
+		asked := make([][]uint, n) // distances in the FINDNODES request each peer received
 		silentOpen, maxOut, other, late := 0, 0, 0, 0
 		returned := false
 		peers := make([]*mnode, n)
 		// reply builds peer i's answer and the nodes it names
 		reply := func(i int) (b []byte, ns []*enode.Node) {
 			switch c.kind(i) {
-			case "content":
-				b, _ = (&portalwire.Content{Content: c10PeerContent(i)}).MarshalSSZ()
+			case "content", "content-zero-length":
+				b, _ = (&portalwire.Content{Content: c.content(i)}).MarshalSSZ()
 				return append([]byte{portalwire.CONTENT, portalwire.ContentRawSelector}, b...), nil
 			case "garbage":
 				if c.API == "Lookup" {
@@ -160,9 +242,17 @@ func c10ContentRun(r *mc.Report, c c10ContentCase, finish func(digest string)) {
 			return append([]byte{portalwire.CONTENT, portalwire.ContentEnrsSelector}, b...), ns
 		}
 		names := map[enode.ID]string{node.Self().ID(): "local"}
+		peerKey := make([]int, n)
+		for i, next := 0, 12; i < n; i++ {
+			peerKey[i] = 12 + i
+			if c.Fill == "full" { // asker placement: every scripted peer in the asker's farthest bucket
+				_, peerKey[i] = keyWithLogDist(node.Self().ID(), 256, next)
+				next = peerKey[i] + 1
+			}
+		}
 		for i := range peers {
 			i := i
-			peers[i] = newMNode(w, mnodeOpts{keyIdx: 12 + i, versions: []uint8{0, 1}, noUtp: true, puppet: func(from enode.ID, m []byte) []byte {
+			peers[i] = newMNode(w, mnodeOpts{keyIdx: peerKey[i], versions: []uint8{0, 1}, noUtp: true, puppet: func(from enode.ID, m []byte) []byte {
 				fc := &portalwire.FindContent{}
 				if len(m) == 0 || m[0] != wantCode || (wantCode == portalwire.FINDCONTENT && (fc.UnmarshalSSZ(m[1:]) != nil || !bytes.Equal(fc.ContentKey, key))) {
 					mu.Lock()
@@ -172,6 +262,12 @@ func c10ContentRun(r *mc.Report, c c10ContentCase, finish func(digest string)) {
 				}
 				mu.Lock()
 				requests[i]++
+				if fn := (&portalwire.FindNodes{}); wantCode == portalwire.FINDNODES && fn.UnmarshalSSZ(m[1:]) == nil {
+					asked[i] = nil
+					for _, d := range fn.Distances {
+						asked[i] = append(asked[i], uint(binary.LittleEndian.Uint16(d[:])))
+					}
+				}
 				if out := len(parked) + silentOpen + 1; out > maxOut {
 					maxOut = out
 				}
@@ -204,6 +300,57 @@ func c10ContentRun(r *mc.Report, c c10ContentCase, finish func(digest string)) {
 				seeds = append(seeds, p.Self().ID())
 			}
 		}
+		target := enode.ID(id)
+		if c.Target == "last-peer" {
+			target = peers[n-1].Self().ID()
+		}
+		fillers := 0
+		if c.Fill == "full" {
+			// top up every bucket a scripted peer belongs to with records of nodes nobody runs (their
+			// address is on no wire: requests to them time out), in key order
+			vt := node.P.VerifTable()
+			room := map[int]int{}
+			for _, p := range peers {
+				room[vt.BucketIndex(p.Self().ID())] = portalwire.VBucketSize
+			}
+			for _, s := range seeds {
+				room[vt.BucketIndex(s)]--
+			}
+			for j := 5000; ; j++ {
+				left := 0
+				for _, k := range room {
+					left += k
+				}
+				if left == 0 {
+					break
+				}
+				k := detKey(j)
+				b := vt.BucketIndex(enode.PubkeyToIDV4(&k.PublicKey))
+				if room[b] <= 0 {
+					continue
+				}
+				f := signedNode(k, 1, net.IP{10, 200, byte(j >> 8), byte(j)}, 30303)
+				if !vt.AddFound(f, true) {
+					panic("harness: filler record not added to the table")
+				}
+				room[b]--
+				fillers++
+				seeds = append(seeds, f.ID())
+				names[f.ID()] = fmt.Sprintf("filler%d", fillers)
+			}
+			synctest.Wait()
+			for _, b := range vt.Snapshot().Buckets {
+				if _, ok := room[b.Index]; ok && len(b.Entries) != portalwire.VBucketSize {
+					panic(fmt.Sprintf("harness: bucket %d holds %d entries, not %d", b.Index, len(b.Entries), portalwire.VBucketSize))
+				}
+			}
+		}
+		// the table hands the lookup its 16 entries closest to the target
+		handed := append([]enode.ID{}, seeds...)
+		sort.Slice(handed, func(i, j int) bool { return enode.DistCmp(target, handed[i], handed[j]) < 0 })
+		if len(handed) > portalwire.VBucketSize {
+			handed = handed[:portalwire.VBucketSize]
+		}
 		var content []byte
 		var utp bool
 		var err error
@@ -220,7 +367,7 @@ func c10ContentRun(r *mc.Report, c c10ContentCase, finish func(digest string)) {
 			}()
 			switch c.API {
 			case "Lookup":
-				found = node.P.Lookup(enode.ID(id))
+				found = node.P.Lookup(target)
 			case "TraceContentLookup":
 				var res *portalwire.TraceContentResult
 				if res, err = node.P.TraceContentLookup(key, id); err == nil {
@@ -251,12 +398,16 @@ func c10ContentRun(r *mc.Report, c c10ContentCase, finish func(digest string)) {
 				late++
 			}
 			if !returned {
-				if c.kind(g.peer) == "content" {
+				if k := c.kind(g.peer); k == "content" || k == "content-zero-length" {
 					supplied = append(supplied, g.peer)
 				}
 				_, ns := reply(g.peer)
 				for _, x := range ns {
 					offered[x.ID()] = names[x.ID()]
+					d := enode.LogDist(peers[g.peer].Self().ID(), x.ID())
+					if x.ID() != node.Self().ID() && slices.Contains(asked[g.peer], uint(d)) {
+						accepted[x.ID()] = true
+					}
 				}
 			}
 			close(g.ch)
@@ -291,7 +442,9 @@ func c10ContentRun(r *mc.Report, c c10ContentCase, finish func(digest string)) {
 		switch {
 		case timedOut || panicked != "":
 		case c.API == "Lookup":
-			// the distance filter of the replies is C11's; here: table entries ⊆ result ⊆ table entries ∪ offered records
+			// the distance filter of the replies is C11's; here: result ⊆ table entries ∪ offered records, and
+			// the 16 closest of (the table's 16 closest entries ∪ the offered records that sit at a distance
+			// their request asked for) ⊆ result
 			var got []string
 			in := map[enode.ID]bool{}
 			for i, x := range found {
@@ -300,29 +453,73 @@ func c10ContentRun(r *mc.Report, c c10ContentCase, finish func(digest string)) {
 					viol("result-distinct-nodes", "node "+names[x.ID()]+" is listed twice")
 				}
 				in[x.ID()] = true
-				if i > 0 && enode.DistCmp(enode.ID(id), found[i-1].ID(), x.ID()) > 0 {
+				if i > 0 && enode.DistCmp(target, found[i-1].ID(), x.ID()) > 0 {
 					viol("result-sorted-by-distance", "result not in XOR-distance order")
 				}
 				if _, ok := offered[x.ID()]; !ok && !containsID(seeds, x.ID()) {
 					viol("result-only-seen-nodes", "node "+x.ID().TerminalString()+" is in the result but was neither in the table nor in a reply")
 				}
 			}
-			for _, s := range seeds {
-				if !in[s] {
-					viol("no-closer-seen-node-omitted", "table entry "+names[s]+" is missing from a result of "+fmt.Sprint(len(found))+" nodes")
+			if len(found) > portalwire.VBucketSize {
+				viol("at-most-16-results", fmt.Sprintf("%d nodes returned", len(found)))
+			}
+			inBucket := map[enode.ID]bool{}
+			for _, b := range node.P.VerifTable().Snapshot().Buckets {
+				for _, e := range b.Entries {
+					inBucket[e.ID] = true
 				}
+			}
+			want := append([]enode.ID{}, handed...)
+			refused := 0
+			for x := range accepted {
+				if !containsID(want, x) {
+					want = append(want, x)
+				}
+				if !inBucket[x] {
+					refused++
+				}
+			}
+			sort.Slice(want, func(i, j int) bool { return enode.DistCmp(target, want[i], want[j]) < 0 })
+			if len(want) > portalwire.VBucketSize {
+				want = want[:portalwire.VBucketSize]
+			}
+			for _, s := range want {
+				if in[s] {
+					continue
+				}
+				switch {
+				case containsID(handed, s):
+					viol("no-closer-seen-node-omitted", "table entry "+names[s]+" is missing from a result of "+fmt.Sprint(len(found))+" nodes")
+				default:
+					site := c.API + ":node-supplied-by-a-peer"
+					if !inBucket[s] {
+						site += "-and-refused-by-the-table"
+					}
+					r.Violation("no-closer-seen-node-omitted", site, fmt.Sprintf("peer %s was supplied by a queried peer at a distance the request asked for and is among the %d closest nodes seen, but the result is [%s] | %s", names[s], len(want), strings.Join(got, ","), desc()), c)
+				}
+				break
+			}
+			r.Count("lookup_supplied_nodes_accepted", int64(len(accepted)))
+			r.Count("lookup_supplied_nodes_the_table_refused", int64(refused))
+			r.Count("lookup_table_fillers_unresponsive", int64(fillers))
+			if refused > 0 {
+				r.Count("lookup_cases_with_a_supplied_node_the_table_refused", 1)
 			}
 			outcome = "nodes:" + strings.Join(got, ",")
 		default:
 			var from []string
-			ok := false
+			ok, zero := false, false
 			for _, i := range supplied {
 				from = append(from, fmt.Sprint(i))
-				ok = ok || bytes.Equal(content, c10PeerContent(i))
+				ok = ok || bytes.Equal(content, c.content(i))
+				zero = zero || len(c.content(i)) == 0
 			}
 			switch {
 			case err == nil && ok && !utp:
 				outcome = "content:" + string(content)
+				if len(content) == 0 {
+					r.Count("content_lookups_returning_zero_length_content", 1)
+				}
 			case err == nil:
 				outcome = "other-content"
 				viol("returns-bytes-a-queried-peer-supplied", fmt.Sprintf("returned %q (utp=%v); content was supplied by queried peers [%s]", content, utp, strings.Join(from, ",")))
@@ -330,7 +527,11 @@ func c10ContentRun(r *mc.Report, c c10ContentCase, finish func(digest string)) {
 				outcome = "not-found"
 			case errors.Is(err, portalwire.ErrContentNotFound):
 				outcome = "not-found-despite-content"
-				viol("returns-supplied-content", "not-found although queried peers ["+strings.Join(from, ",")+"] supplied content")
+				site := c.API
+				if zero {
+					site += ":zero-length-content"
+				}
+				r.Violation("returns-supplied-content", site, "not-found although queried peers ["+strings.Join(from, ",")+"] supplied content | "+desc(), c)
 			default:
 				outcome = "error"
 				viol("not-found-otherwise", "neither content nor the not-found error: "+err.Error())
@@ -339,7 +540,7 @@ func c10ContentRun(r *mc.Report, c c10ContentCase, finish func(digest string)) {
 		r.Max("max_requests_outstanding_at_peers", int64(maxOut))
 		r.Count("other_requests_seen_by_peers", int64(other))
 		r.Count("started_node_datagrams", int64(w.sent))
-		finish(fmt.Sprintf("%s|%v|%s|%s|asked=%v|out=%d|%s", c.API, c.Answers, c.Seeds, c.Order, requests, maxOut, outcome))
+		finish(fmt.Sprintf("%s|%v|%s|%s|%s|%s|asked=%v|out=%d|%s", c.API, c.Answers, c.Seeds, c.Order, c.Fill, c.Target, requests, maxOut, outcome))
 		for _, p := range peers {
 			p.close()
 		}
@@ -372,7 +573,24 @@ func runC10Content(r *mc.Report, e *Env, i int) {
 	if i == 0 {
 		r.Assume("started-node lookups (ContentLookup, TraceContentLookup, Lookup through the real lookupWorker): one real started node (discv5 + table loop on the virtual clock) and 2..3 scripted discv5 peers over the full 6-answer menu (4 peers: a sub-menu; quick: fewer orders), all peers or only peer 0 in the table; an answer is released only when the wire is empty (oldest first, or newest first); no datagram loss or reordering; small (in-packet) content only, uTP transfers belong to C08")
 		r.Assume("the in-flight count of a started node's lookup is taken at the scripted peers: requests received and not yet answered (a silent peer counts for 500 of the asker's 700 ms timeout) — a lower bound of what the node has outstanding")
-		r.Assume("Lookup through lookupWorker: which offered records pass the distance filter is C11's subject; the result is checked to be sorted, distinct, to contain every table entry and nothing that was neither in the table nor offered")
+		r.Assume("Lookup through lookupWorker: which offered records pass the distance filter is C11's subject; the result is checked to be sorted, distinct, at most 16 long, to contain nothing that was neither in the table nor offered, and to contain the 16 closest of (table entries handed over + seen records, see the oracle note)")
+		r.Assume("zero-length content: answer 6 of the menu is a peer that holds the key with a zero-length value (CONTENT, raw selector, zero bytes); every assignment of the 7-answer menu to 2 peers (3 peers: a sub-menu in quick) in which at least one peer gives it; the lookup must return (found, empty) when such an answer was released before it returned")
+		r.Assume("full bucket (Lookup through lookupWorker only): every scripted peer's id lies in the asker's farthest bucket (log distance 256), that bucket holds 16 entries when the lookup starts = peer 0 + 15 records of nodes that never answer (LAN addresses: no IP limit involved), so the table refuses every node a peer supplies; targets: the content id and the id of the last peer; NOT covered: a bucket refused for the bucket/table IP limit, a table that is closing while lookupWorker adds")
+		r.Assume("Lookup oracle: a record counts as seen when a released answer carried it, it is not the asker's own and its log distance from the answering peer is one of the distances decoded from the FINDNODES request that peer received (all harness records are signed, LAN, port > 1024: they pass every other rule of verifyResponseNode); the table part of 'seen' is the 16 entries closest to the target of what the harness put into the table")
+		zero, fullCases := 0, 0
+		for _, c := range cases {
+			if c.Fill == "full" {
+				fullCases++
+			}
+			for _, a := range c.Answers {
+				if a == 6 && c.API != "Lookup" {
+					zero++
+					break
+				}
+			}
+		}
+		r.Set("started_node_cases_zero_length_content", zero)
+		r.Set("started_node_cases_full_bucket", fullCases)
 		r.Set("started_node_cases", len(cases))
 		r.Set("started_node_answer_menu", c10ContentMenu)
 		r.Sample(cases[len(cases)/3])
